@@ -528,6 +528,9 @@ impl Model for PubdModel {
         let mut ops = vec![
             one("alice", PubEl::Publish { uri: uri("alice", "a.txt"), content: 1 }),
             one("alice", PubEl::Update { uri: uri("alice", "a.txt"), content: 2, old: Some(1) }),
+            // a second update of the same object (two requests between two
+            // RRDP updates must merge into one element against the snapshot)
+            one("alice", PubEl::Update { uri: uri("alice", "a.txt"), content: 3, old: Some(2) }),
             one("alice", PubEl::Withdraw { uri: uri("alice", "a.txt"), old: Some(1) }),
             one("alice", PubEl::Withdraw { uri: uri("alice", "a.txt"), old: Some(2) }),
             Op::PubDelta {
